@@ -65,6 +65,9 @@ def gen_case(rng):
     case = {'kind': kind, 'k': k, 'data': data, 'sym': sym, 'L': L, 'base': rng.choice(['linear', 'linear', 2, 'e', 10])}
     if kind == 'ts':
         case['h'] = rng.randint(0, 3)
+        if k > 1 and len(data) == 1:
+            # a single row is read by dist_from_timeseries as ONE series (documented 1-d convenience): not a k-series input
+            case['data'] = data + data
     if kind == 'counts':
         case['f'] = rng.randint(0, 1)
     return case
